@@ -97,10 +97,15 @@ def special_defns():
     xdoc.add_container(d, "TAIL", [("p", "T")], abstract=True)
     xdoc.add_container(d, "PA", [("c", "TAIL"), ("p", "A")], base="SEC", crit_list=[cmp("SUB", "==", 0), cmp("APIDX", "==", 0)])
     xdoc.add_container(d, "PB", [("p", "B"), ("c", "TAIL")], base="SEC",
-                       crit_list=[{"k": "or", "conds": [crit.obj_cond if False else {"k": "cond", "l": "SUB", "lcal": True, "op": "==", "rk": "lit", "r": "", "rcal": False, "lit": crit.lit_num(False, 1)},
-                                                        {"k": "cond", "l": "APIDX", "lcal": True, "op": ">=", "rk": "lit", "r": "", "rcal": False, "lit": crit.lit_num(False, 3)}],
-                                   "groups": []}])
+                       crit_list=[{"k": "or", "conds": [{"k": "cond", "l": "SUB", "lcal": True, "op": "==", "rk": "lit", "r": "", "rcal": False, "lit": crit.lit_num(False, 1)}],
+                                   # a nested group: SUB == 1 or (APIDX >= 3 and VERSION <= 7)
+                                   "groups": [{"k": "and", "conds": [
+                                       {"k": "cond", "l": "APIDX", "lcal": True, "op": ">=", "rk": "lit", "r": "", "rcal": False, "lit": crit.lit_num(False, 3)},
+                                       {"k": "cond", "l": "VERSION", "lcal": True, "op": "<=", "rk": "lit", "r": "", "rcal": False, "lit": crit.lit_num(False, 7)}],
+                                       "groups": []}]}])
     xdoc.add_container(d, "PBB", [("c", "TAIL"), ("p", "Z")], base="PB", crit_list=[cmp("B", ">", 5)])
+    # a sibling that overlaps PBB: below a container restricted by a nested boolean expression both may hold at once (ambiguity)
+    xdoc.add_container(d, "PBC", [("p", "A")], base="PB", crit_list=[cmp("B", ">", 3)])
     xdoc.add_container(d, "PC", [("p", "Z")], base="SEC", crit_list=[cmp("SUB", ">=", 2)])
     xdoc.add_container(d, "PD", [("p", "A")], base="SEC", crit_list=[cmp("SUB", "==", 3), cmp("VERSION", "==", 0)])
     out.append(d)
